@@ -77,7 +77,7 @@ def isDictComment (buf : Buf) (l : Span buf.size) : Bool :=
   if h : l.lo + 1 < buf.size then
     let a := buf[l.lo]'(by omega)
     let b := buf[l.lo + 1]'h
-    (a == 35 && b == 35) || (a == 59 && b == 59)
+    a == b && Generated.TextIn.dictCommentMarks.contains a
   else false
 
 def phoneId (phones : List (List UInt8)) (p : List UInt8) : Option Nat := phones.idxOf? p
@@ -111,38 +111,46 @@ inductive DictErr where
   | startInMain | finishInMain | silInMain | silNotFiller
 deriving Repr, DecidableEq, Inhabited
 
-def wStart : List UInt8 := "<s>".toUTF8.toList
-def wFinish : List UInt8 := "</s>".toUTF8.toList
-def wSil : List UInt8 := "<sil>".toUTF8.toList
+def wStart : List UInt8 := Generated.TextIn.startWord
+def wFinish : List UInt8 := Generated.TextIn.finishWord
+def wSil : List UInt8 := Generated.TextIn.silenceWord
 
 def addIfMissing (d : Dict) (w : List UInt8) (sil : Nat) : Dict :=
   if (d.wordId w).isSome then d else match dictAdd d w [sil] with
     | some (d', _) => d'
     | none => d
 
+/-- the main dictionary file read into an empty dictionary -/
+def dictMain (phones : List (List UInt8)) (main : Option Buf) : Dict :=
+  match main with | some b => dictReadFile phones b {} | none => {}
+
+/-- `d->filler_start = d->n_word`, then the filler dictionary file -/
+def dictFiller (phones : List (List UInt8)) (fdict : Option Buf) (d1 : Dict) : Dict :=
+  let d : Dict := { d1 with fillerStart := d1.size }
+  match fdict with | some b => dictReadFile phones b d | none => d
+
+/-- `dict_filler_word(d, d->silwid)` -/
+def silIsFiller (d : Dict) : Bool :=
+  let fillerEnd : Int := (d.size : Int) - 1
+  match d.wordId wSil with
+  | none => false
+  | some sw =>
+    let b := match d.words[sw]? with | some e => e.basewid | none => sw
+    if some b == d.wordId wStart || some b == d.wordId wFinish then false
+    else decide (d.fillerStart ≤ b) && decide ((b : Int) ≤ fillerEnd)
+
+/-- the end of `dict_init_s3file`: add `<s>`, `</s>`, `<sil>` when missing, check the filler range -/
+def dictFinish (sil : Nat) (d2 : Dict) : Except DictErr Dict :=
+  let d := addIfMissing (addIfMissing (addIfMissing d2 wStart sil) wFinish sil) wSil sil
+  if (d.fillerStart : Int) > (d.size : Int) - 1 || !silIsFiller d then .error .silNotFiller else .ok d
+
 /-- `dict_init_s3file` -/
 def dictInit (phones : List (List UInt8)) (sil : Nat) (main fdict : Option Buf) : Except DictErr Dict :=
-  let d : Dict := {}
-  let d := match main with | some b => dictReadFile phones b d | none => d
+  let d := dictMain phones main
   if (d.wordId wStart).isSome then .error .startInMain
   else if (d.wordId wFinish).isSome then .error .finishInMain
   else if (d.wordId wSil).isSome then .error .silInMain
-  else
-    let d := { d with fillerStart := d.size }
-    let d := match fdict with | some b => dictReadFile phones b d | none => d
-    let d := addIfMissing d wStart sil
-    let d := addIfMissing d wFinish sil
-    let d := addIfMissing d wSil sil
-    let fillerEnd : Int := (d.size : Int) - 1
-    -- dict_filler_word(d, silwid)
-    let silOk : Bool := match d.wordId wSil with
-      | none => false
-      | some sw =>
-        let b := match d.words[sw]? with | some e => e.basewid | none => sw
-        if some b == d.wordId wStart || some b == d.wordId wFinish then false
-        else decide (d.fillerStart ≤ b) && decide ((b : Int) ≤ fillerEnd)
-    if (d.fillerStart : Int) > fillerEnd || !silOk then .error .silNotFiller
-    else .ok d
+  else dictFinish sil (dictFiller phones fdict d)
 
 /-! ## `decoder_add_word` -/
 
@@ -172,9 +180,9 @@ def addWord (phones : List (List UInt8)) (d : Dict) (word phoneStr : List UInt8)
 /-! ## `decoder_set_align_text` -/
 
 /-- the set `" \t\n\r\f"` of `string_trim` -/
-def isTrimSpace (b : UInt8) : Bool := b == 32 || b == 9 || b == 10 || b == 13 || b == 12
+def isTrimSpace (b : UInt8) : Bool := Generated.TextIn.trimChars.contains b
 /-- the delimiter set `" \t\n\r"` passed to `nextword` -/
-def isAlignDelim (b : UInt8) : Bool := b == 32 || b == 9 || b == 10 || b == 13
+def isAlignDelim (b : UInt8) : Bool := Generated.TextIn.alignDelims.contains b
 
 def trimBoth (s : List UInt8) : List UInt8 :=
   ((s.dropWhile isTrimSpace).reverse.dropWhile isTrimSpace).reverse
